@@ -81,3 +81,28 @@ extern "C" int rename_()
   vf_reach("end");
   return 0;
 }
+
+// File::copy: a failed copy reports failure, leaves no new file behind and no descriptor open
+extern "C" int copy_()
+{
+  vf_fs_add("d", 1, 0);
+  unsigned srcKind = vf_pick(3);                  // absent / file / directory
+  unsigned dstKind = vf_pick(2);                  // absent / file
+  if(srcKind == 1) vf_fs_add("d/src", 2, 0); else if(srcKind == 2) vf_fs_add("d/src", 1, 0);
+  if(dstKind == 1) vf_fs_add("d/dst", 2, 0);
+  bool failIfExists = vf_pick(2);
+  unsigned refuse = vf_pick(3);
+  if(refuse == 1) vf_fs_fail("sendfile", 1, 5);  // the OS fails the transfer itself (EIO)
+  else if(refuse == 2) vf_fs_fail("lseek", 1, 5);
+  bool ok = File::copy(String("d/src"), String("d/dst"), failIfExists);
+  vf_assert(vf_fs_open_fds() == 0, "no file descriptor is left open");
+  if(srcKind != 1 || refuse || (failIfExists && dstKind)) vf_assert(!ok, "a copy that cannot be done reports failure");
+  if(!ok)
+  {
+    if(dstKind == 0) vf_assert(vf_fs_kind("d/dst") == 0, "a failed copy leaves no new file behind");
+    vf_assert(vf_fs_kind("d/src") == (srcKind == 0 ? 0 : srcKind == 1 ? 2 : 1), "a failed copy leaves the source as it was");
+  }
+  else vf_assert(vf_fs_kind("d/dst") == 2 && vf_fs_kind("d/src") == 2, "a successful copy: both files exist");
+  vf_reach("end");
+  return 0;
+}
